@@ -185,7 +185,14 @@ def main(argv):
     proof_ok = b["proof_ok"] and not hyg and asm["rc"] == 0
     ctx = {"prop": prop, "tier": tier, "seed": seed, "model_ok": b["model_ok"], "proof_ok": proof_ok,
            "known": load_known(), "t0": t0}
-    res = mod.run(ctx)          # correspondence slice + monitors (+ search when something broke)
+    try:
+        res = mod.run(ctx)      # correspondence slice + monitors (+ search when something broke)
+    except Exception:
+        import traceback
+        tb = traceback.format_exc()
+        sys.stderr.write(tb)
+        res = {"violations": [{"property": prop, "what": "the check's own harness crashed", "error": tb[-3000:]}],
+               "evaluations": 0, "distinct_nontrivial": 0}
     violations = list(res.get("violations", []))
     broken = []
     if not b["translator_ok"]:
